@@ -1,4 +1,6 @@
 import DclabModel.Gen.MetaTable
+import DclabModel.Model.MetaWriter
+import DclabModel.Model.MetaGuess
 import DclabModel.DriveUtil
 /-! Line-protocol driver for the metadata model (C11).  Values are tagged and exact:
 
@@ -14,6 +16,10 @@ import DclabModel.DriveUtil
     clean <raw>                cleanText
     reg <name> | dereg <name>  register / deregister a scalar feature (state of the driver)
     attr-reset | attr-store <sec> <key> <val> | attr-get <sec> <key>   store_metadata history
+    attr-rectify <events> <samples|-> <fl1fl2fl3 as 0/1> <rows>x<cols>|-   rectify_metadata on the attribute map
+    guess <text>               keyval_str2typ (value part; `none` when the function returns None)
+    typ2str <val> <fmts>       keyval_typ2str; fmts = `-` or `<p/q>=<cps>;…` renderings '{:.12f}' of the floats
+    textrt <val> <fmts>        typ2str, then guess of the text
 -/
 open DclabModel.Meta DclabModel.DriveUtil
 
@@ -126,6 +132,35 @@ def showSet (key : Str) : Except Err (Dict × List Warn) → String
 def parseStr (s : String) : Option Str :=
   if s.startsWith "s:" then parseCps (dropN s 2) else none
 
+def parseShape (n tr fl img : String) : Option DataShape := do
+  let n ← n.toNat?
+  let tr ← if tr = "-" then some none else tr.toNat?.map some
+  let bits ← fl.toList.mapM (fun c => if c = '1' then some true else if c = '0' then some false else none)
+  let img ← if img = "-" then some none else
+    match img.splitOn "x" with
+    | [r, c] => do some (some ((← r.toNat?), (← c.toNat?)))
+    | _ => none
+  match bits with
+  | [a, b, c] => some ⟨n, tr, a, b, c, img⟩
+  | _ => none
+
+def parseFmts (s : String) : Option (List (F × Str)) :=
+  if s = "-" then some [] else
+  (s.splitOn ";").mapM fun e =>
+    match e.splitOn "=" with
+    | [q, t] => do some ((← parseF? q), (← parseCps t))
+    | _ => none
+
+def fmtOf (tab : List (F × Str)) (x : F) : Str :=
+  match tab.find? (·.1 = x) with
+  | some e => e.2
+  | none => []
+
+def showGuess : Except Err (Option PyVal) → String
+  | .ok (some v) => showVal v
+  | .ok none => "none"
+  | .error e => showErr e
+
 def handle (u : D) (line : String) : D × String :=
   let tbl := baseTbl.withFeats u.reg
   match words line with
@@ -145,6 +180,10 @@ def handle (u : D) (line : String) : D × String :=
       | .ok a => ({ u with attrs := a }, "ok")
       | .error e => (u, showErr e)
     | _, _, _ => (u, "bad-op")
+  | ["attr-rectify", n, tr, fl, img] =>
+    match parseShape n tr fl img with
+    | some d => ({ u with attrs := rectify d u.attrs }, "ok")
+    | none => (u, "bad-op")
   | ["attr-get", sec, key] =>
     match parseStr sec, parseStr key with
     | some sec, some key =>
@@ -159,6 +198,24 @@ def handle (u : D) (line : String) : D × String :=
       match parseStr t with
       | some t => "s:" ++ showCps (cleanText t)
       | none => "bad-op"
+    | ["guess", t] =>
+      match parseStr t with
+      | some t => showGuess (tbl.guess t)
+      | none => "bad-op"
+    | ["typ2str", v, f] =>
+      match parseVal v, parseFmts f with
+      | some v, some f =>
+        match typ2str (fmtOf f) v with
+        | .ok s => "s:" ++ showCps s
+        | .error e => showErr e
+      | _, _ => "bad-op"
+    | ["textrt", v, f] =>
+      match parseVal v, parseFmts f with
+      | some v, some f =>
+        match typ2str (fmtOf f) v with
+        | .ok s => showGuess (tbl.guess s)
+        | .error e => showErr e
+      | _, _ => "bad-op"
     | ["conv", c, v] =>
       match Conv.ofName c, parseVal v with
       | some c, some v => showRes (conv c v)
